@@ -148,7 +148,7 @@ def _selftest():
                         a = ref_rt(n0, ent, 0.55, aois, pol)
                         g, tau = ref_rt_rouard(n0, ent, 0.55, aois, pol)
                         worst = max(worst, float(np.max(np.abs(a['r'] - g) / a['cond'])), float(np.max(np.abs(a['t'] - tau) / a['cond'])))
-    if not worst < 50 * EPS:
+    if not worst < 50 * np.finfo(float).eps:    # measured 4.6 eps
         raise RuntimeError(f'C17 reference self-test failed: matrix form vs Rouard recursion differ by {worst:.3e} (cond units)')
 
 
@@ -233,9 +233,9 @@ def run_fresnel(case, seed, R):
         th1_ref = math.asin(s / n1)
         ang_cond = 1 / c1 ** 2
         th1 = R.call(tf.snell_aor, n0, n1, aoi)
-        ok = R.expect_close(th1, th1_ref, 8 * EPS * ang_cond, 'snell_aor', f'snell_aor({n0},{n1},{aoi} deg)')
+        ok = R.expect_close(th1, th1_ref, KTOL * EPS * ang_cond, 'snell_aor', f'snell_aor({n0},{n1},{aoi} deg)')
         th1b = R.call(tf.snell_aor, n0, n1, th0, degrees=False)
-        R.expect_close(th1b, th1_ref, 8 * EPS * ang_cond, 'snell_aor', f'snell_aor({n0},{n1},{th0} rad)')
+        R.expect_close(th1b, th1_ref, KTOL * EPS * ang_cond, 'snell_aor', f'snell_aor({n0},{n1},{th0} rad)')
         th1_use = th1 if ok else th1_ref      # the documented way of calling the fresnel functions: with the Snell angle
         want = {
             'rs': (n0 * c0 - n1 * c1) / (n0 * c0 + n1 * c1),
